@@ -1491,6 +1491,10 @@ func execBounds(s *Scenario, phase string, log *core.Log) core.Result {
 					args = append(args, float64(v))
 				}
 				objs[w].Set(args...)
+				// the slice spread into Set stays the caller's, who reuses it
+				for i := range args {
+					args[i] = -4242.5
+				}
 				for i := 0; i < st; i++ {
 					models[w].min[i], models[w].max[i] = float64(m.C[i]), float64(m.C2[i])
 				}
@@ -1510,6 +1514,10 @@ func execBounds(s *Scenario, phase string, log *core.Log) core.Result {
 					args = append(args, float64(v))
 				}
 				objs[w].Set(args...)
+				// the slice spread into Set stays the caller's, who reuses it
+				for i := range args {
+					args[i] = -4242.5
+				}
 				for i := 0; i < st; i++ {
 					models[w].min[i], models[w].max[i] = float64(m.C[i]), float64(m.C2[i])
 				}
